@@ -13,6 +13,12 @@ MUTANTS = [
     ('new low precision column', [('mininec.Excitation.as_mininec', "                r.append \\\n            ( '%sPOWER = %s  WATTS'", "                r.append \\\n            ( '%sPOWER = %s  WATTS'")], []),
 ]
 MUTANTS = [m_ for m_ in MUTANTS if m_[2]]
+MUTANTS += [
+    ('load count counts loads not pulses', [('mininec.Mininec.loads_as_mininec', "            n += len (l.pulses)", "            n += 1")], ['count']),
+    ('source count off by one', [('mininec.Mininec.sources_as_mininec', "len (self.sources))", "len (self.sources) - 1)")], ['count']),
+    ('media table skips the first medium', [('mininec.Mininec.environment_as_mininec', "for n, m in enumerate (self.media):", "for n, m in enumerate (self.media [1:]):")], ['for self']),
+    ('load writer called twice', [('mininec.Mininec.loads_as_mininec', "            r.append (l.as_mininec (self))", "            r.append (l.as_mininec (self))\n            r.append (l.as_mininec (self))")], ['for self']),
+]
 REFACTORS = [
     ('magnitude via abs builtin', [('mininec.Mininec.currents_as_mininec', "((k + 1, c.real, c.imag, np.abs (c), a), use_e = True)", "((k + 1, c.real, c.imag, abs (c), a), use_e = True)")]),
 ]
